@@ -31,10 +31,9 @@ spec_fn(
              stmt="0 <= cnt2(M, H, 0) and forall(0, H, lambda y: forall(0, W + 1, lambda x:"
                   " 0 <= cnt2(M, y, x) and cnt2(M, y, x) <= cnt2(M, H, 0), pat=cnt2(M, y, x)))"),
         # strictly increasing at unmasked pixels => (y,x) -> cnt2 is injective on unmasked pixels, and < total
-        dict(name="strict_row", noinduct=True,
-             stmt="forall(0, H, lambda y: forall(0, W, lambda x1: forall(0, W + 1, lambda x2:"
-                  " implies(not M[y, x1] and x1 < x2, cnt2(M, y, x1) < cnt2(M, y, x2)),"
-                  " pat=((cnt2(M, y, x1), cnt2(M, y, x2)),))))"),
+        dict(name="strict_row", induct="n", lo=0, hi="W",
+             stmt="forall(0, H, lambda y: forall(0, n, lambda x1: implies(not M[y, x1], cnt2(M, y, x1) < cnt2(M, y, n)),"
+                  " pat=((cnt2(M, y, x1), cnt2(M, y, n)),)))"),
         dict(name="strict", noinduct=True,
              stmt="forall(0, H, lambda y1: forall(0, W, lambda x1: forall(0, H + 1, lambda y2: forall(0, W + 1, lambda x2:"
                   " implies(not M[y1, x1] and y1 < y2 and (y2 < H or x2 == 0), cnt2(M, y1, x1) < cnt2(M, y2, x2)),"
@@ -120,9 +119,13 @@ spec_fn(
     "cnt1", params=[("M", "bool[1]"), ("x", "int")], ret="int",
     let={"N": "M.shape[0]"},
     axioms=["cnt1(M, 0) == 0",
-            "forall(0, N, lambda x: cnt1(M, x + 1) == cnt1(M, x) + (0 if M[x] else 1))"],
+            "forall(0, N, lambda x: cnt1(M, x + 1) == cnt1(M, x) + (0 if M[x] else 1), pat=cnt1(M, x + 1))"],
     lemmas=[dict(name="mono", induct="n", lo=0, hi="N",
-                 stmt="forall(0, n + 1, lambda x1: 0 <= cnt1(M, x1) and cnt1(M, x1) <= cnt1(M, n))")],
+                 stmt="forall(0, n + 1, lambda x1: 0 <= cnt1(M, x1) and cnt1(M, x1) <= cnt1(M, n),"
+                      " pat=((cnt1(M, x1), cnt1(M, n)),))"),
+            dict(name="strict", noinduct=True,
+                 stmt="forall(0, N, lambda x1: forall(0, N + 1, lambda x2: implies(not M[x1] and x1 < x2, cnt1(M, x1) < cnt1(M, x2)),"
+                      " pat=((cnt1(M, x1), cnt1(M, x2)),)))")],
     py=lambda M, x: int(np.count_nonzero(~np.asarray(M, dtype=bool)[:x])),
 )
 macro("total1", ["M"], "cnt1(M, M.shape[0])", py=lambda M: int(np.count_nonzero(~np.asarray(M, dtype=bool))))
